@@ -80,6 +80,8 @@ type Engine struct {
 	models  []*cachedModel
 	NoModelCache bool
 	ModelHits int
+	Fallbacks int
+	dumpSeq int
 	chooseTrace []string
 	Completed int
 
@@ -618,9 +620,39 @@ func (e *Engine) assertObl(fr *frame, c *Term, label string, kf string, kfCond *
 		if extra != nil {
 			e.solver.Assert(extra)
 		}
-		r := e.solver.Check(e.OblTO)
+		to := e.OblTO
+		if e.IntMode && to > 4000 {
+			to = 4000 // non-linear integer queries: give up quickly here, the standalone fallback has the full budget
+		}
+		r := e.solver.Check(to)
+		var m map[string]string
+		var order []string
 		if r == "sat" {
-			m, order := e.modelNow()
+			m, order = e.modelNow()
+		} else if r == "unknown" {
+			// the incremental process gave up: ask a fresh solver the same question standalone
+			roots := append(e.pcTerms(), neg)
+			if extra != nil {
+				roots = append(roots, extra)
+			}
+			r2, vals := SolveStandalone("z3-new", e.tt, roots, e.inputs, time.Duration(e.OblTO)*time.Millisecond)
+			e.Fallbacks++
+			if r2 == "unsat" {
+				r = "unsat"
+			} else if r2 == "sat" {
+				r = "sat"
+				m = map[string]string{}
+				for i, in := range e.inputs {
+					v, ok := vals[in.id]
+					if !ok {
+						v = big.NewInt(0)
+					}
+					m[e.inputNames[i]] = "0x" + v.Text(16)
+					order = append(order, e.inputNames[i])
+				}
+			}
+		}
+		if r == "sat" {
 			w, st := e.whereStack(fr.caller)
 			v := &Violation{Harness: e.Harness, Label: label, Kind: "assert", Message: "assertion can fail", Where: w, Stack: st, Model: m, Order: order, KF: kfid}
 			if kfid != "" && e.KnownOpen[kfid] {
@@ -677,6 +709,10 @@ func (e *Engine) assertObl(fr *frame, c *Term, label string, kf string, kfCond *
 	case "sat", "known":
 	default:
 		e.Inconclusive = append(e.Inconclusive, fmt.Sprintf("obligation %q: solver answered %s", label, res))
+		if d := os.Getenv("GOSYM_DUMP_UNKNOWN"); d != "" {
+			e.dumpSeq++
+			os.WriteFile(fmt.Sprintf("%s/unknown_%s_%d.smt2", d, e.Harness, e.dumpSeq), []byte(e.tt.Standalone(append(e.pcTerms(), neg))), 0644)
+		}
 	}
 	// continue the path under the asserted condition (a discharged obligation is
 	// already implied by the path condition and is not added again)
